@@ -19,7 +19,7 @@ import numpy as np
 import felupe as fem
 
 from .. import gen, jobsim, world
-from ..kernel import Discard, InjectedFault, Streams, Violation, adigest, close_exact_twin
+from ..kernel import Discard, InjectedFault, Streams, Violation, adigest, close_exact_twin, pick
 
 PROP = "C03"
 
@@ -422,7 +422,7 @@ def run_point(doc, log):
     # model broadcasts them): the object must behave like the one built from floats (the cold
     # reference objects are), and must leave the caller's parameter arrays alone
     param_arrays = {}
-    how = (None, "0d", None, "1c", None, "qc")[doc["seed"] % 6]
+    how = (None, "0d", None, "1c", None, "qc")[pick(doc["seed"], "param-arrays", 6)]
     if how and model in REPARAM and not doc.get("parallel"):
         if how != "0d" and model not in ("LinearElastic", "Volumetric"):
             how = "0d"
